@@ -337,6 +337,38 @@ func xrun(args []string) error {
 				pyopts = append(pyopts, map[string]any{"chunk_size": []int{1, 100, 600, 1 << 20}[r.Intn(4)], "index_types": its, "repeat_channels": b(), "repeat_schemas": b(),
 					"use_chunking": b(), "use_statistics": b(), "use_summary_offsets": b(), "enable_crcs": b(), "enable_data_crcs": r.Intn(2) == 0})
 			}
+			// lean summaries: nothing recorded at all, or every summary group that is switched on stays empty while summary
+			// offsets are on (the Python writer then writes summary_start = summary_offset_start != 0), or everything off
+			noAux := func(w wl.Workload) wl.Workload {
+				var cs []wl.Call
+				for _, c := range w.Calls {
+					if c.Op != "attachment" && c.Op != "metadata" {
+						cs = append(cs, c)
+					}
+				}
+				w.Calls = cs
+				return w
+			}
+			lean := []struct {
+				w    wl.Workload
+				opts map[string]any
+			}{
+				{wl.Workload{Calls: []wl.Call{{Op: "header", Profile: []byte("p"), Library: []byte("l")}, {Op: "close"}}},
+					map[string]any{"chunk_size": 600, "index_types": []string{"ATTACHMENT", "CHUNK", "MESSAGE", "METADATA"}, "repeat_channels": true, "repeat_schemas": true, "use_chunking": true, "use_statistics": false, "use_summary_offsets": true, "enable_crcs": true, "enable_data_crcs": true}},
+				{noAux(pyWorkload(g, "", *size)),
+					map[string]any{"chunk_size": 600, "index_types": []string{"ATTACHMENT", "METADATA"}, "repeat_channels": false, "repeat_schemas": false, "use_chunking": true, "use_statistics": false, "use_summary_offsets": true, "enable_crcs": true, "enable_data_crcs": false}},
+				{noAux(pyWorkload(g, "", *size)),
+					map[string]any{"chunk_size": 100, "index_types": []string{}, "repeat_channels": false, "repeat_schemas": false, "use_chunking": false, "use_statistics": false, "use_summary_offsets": true, "enable_crcs": false, "enable_data_crcs": false}},
+				{pyWorkload(g, "", *size),
+					map[string]any{"chunk_size": 100, "index_types": []string{}, "repeat_channels": false, "repeat_schemas": false, "use_chunking": true, "use_statistics": false, "use_summary_offsets": false, "enable_crcs": true, "enable_data_crcs": true}},
+				{wl.Workload{Calls: []wl.Call{{Op: "header", Profile: []byte(""), Library: []byte("")}, {Op: "close"}}},
+					map[string]any{"chunk_size": 600, "index_types": []string{}, "repeat_channels": false, "repeat_schemas": false, "use_chunking": false, "use_statistics": true, "use_summary_offsets": true, "enable_crcs": false, "enable_data_crcs": false}},
+			}
+			for k, l := range lean {
+				l.w.ID = fmt.Sprintf("p2glean%d-%d", *seed, k)
+				wls = append(wls, l.w)
+				pyopts = append(pyopts, l.opts)
+			}
 		}
 		wp := filepath.Join(*dir, "pywl.ndjson")
 		var wb bytes.Buffer
